@@ -53,6 +53,8 @@ pub enum Op {
     Burst { t: usize, a: String, ca: String, b: String, cb: String, n: usize },
     /// the library's own thread-local scratch through `word_match`
     WMatch { t: usize, r: String, q: String, fin: bool },
+    /// the Jaccard pre-filter of the word matcher (thread-local scratch) on its own
+    JCheck { t: usize, r: String, q: String, fin: bool },
 }
 
 impl Op {
@@ -82,6 +84,7 @@ impl Op {
             Op::Dist { .. } => "dist",
             Op::Jacc { .. } => "jacc",
             Op::WMatch { .. } => "wmatch",
+            Op::JCheck { .. } => "jcheck",
         }
     }
 
@@ -111,6 +114,7 @@ impl Op {
             Op::Dist { t, a, ca, b, cb } => json!({"op":"dist","t":t,"a":a,"ca":ca,"b":b,"cb":cb}),
             Op::Jacc { t, a, b } => json!({"op":"jacc","t":t,"a":a,"b":b}),
             Op::WMatch { t, r, q, fin } => json!({"op":"wmatch","t":t,"r":r,"q":q,"fin":fin}),
+            Op::JCheck { t, r, q, fin } => json!({"op":"jcheck","t":t,"r":r,"q":q,"fin":fin}),
         }
     }
 
@@ -144,6 +148,7 @@ impl Op {
             "r_read" => Op::RRead { t: gu(o, "t")?, id: gid(o)? },
             "dist" => Op::Dist { t: gu(o, "t")?, a: gs(o, "a")?, ca: gs(o, "ca")?, b: gs(o, "b")?, cb: gs(o, "cb")? },
             "jacc" => Op::Jacc { t: gu(o, "t")?, a: gs(o, "a")?, b: gs(o, "b")? },
+            "jcheck" => Op::JCheck { t: gu(o, "t")?, r: gs(o, "r")?, q: gs(o, "q")?, fin: o.get("fin").and_then(|x| x.as_bool()).unwrap_or(true) },
             "wmatch" => Op::WMatch { t: gu(o, "t")?, r: gs(o, "r")?, q: gs(o, "q")?, fin: o.get("fin").and_then(|x| x.as_bool()).unwrap_or(true) },
             other => return Err(format!("unknown op kind {}", other)),
         })
